@@ -5,8 +5,12 @@ from concurrent.futures import ThreadPoolExecutor
 
 ROOT = os.path.dirname(os.path.dirname(os.path.abspath(__file__)))
 SPEC = os.path.join(ROOT, "spec")
-BUILD = os.path.join(ROOT, ".build")
-HARNESS = os.path.join(BUILD, "harness")
+# VERIF_REPO: the irismod tree to verify (default /repo).  A different tree
+# (a scratch worktree with a candidate change) gets its own copy of the harness
+# module with the replace directives rewritten, and its own build directory.
+REPO = os.environ.get("VERIF_REPO", "/repo").rstrip("/")
+BUILD = os.path.join(ROOT, ".build") if REPO == "/repo" else os.path.join(
+    "/tmp", "verif-build-" + hashlib.sha1(REPO.encode()).hexdigest()[:10])
 JAR = "/opt/veriftools/tla/tla2tools.jar:/opt/veriftools/tla/CommunityModules-deps.jar"
 GOENV = dict(GOFLAGS="-mod=mod", GOPROXY="off", GOSUMDB="off", GOTOOLCHAIN="local")
 NCPU = os.cpu_count() or 8
@@ -20,22 +24,32 @@ def log(*a):
     print(*a, flush=True)
 
 
-def build_harness():
-    """Rebuild the harness from /repo's current working tree (tag verif)."""
+def harness_bin(module):
+    return os.path.join(BUILD, "harness-" + module)
+
+
+def build_harness(module):
+    """Rebuild the module's harness binary from /repo's current working tree (tag verif)."""
     os.makedirs(BUILD, exist_ok=True)
     hdir = os.path.join(ROOT, "harness")
     with open(os.path.join(BUILD, ".lock"), "w") as lk:
         fcntl.flock(lk, fcntl.LOCK_EX)
+        if REPO != "/repo":
+            alt = os.path.join(BUILD, "harness")
+            shutil.rmtree(alt, ignore_errors=True)
+            shutil.copytree(hdir, alt)
+            gm = open(os.path.join(alt, "go.mod")).read().replace("=> /repo/", "=> " + REPO + "/")
+            open(os.path.join(alt, "go.mod"), "w").write(gm)
+            hdir = alt
         gosum = os.path.join(hdir, "go.sum")
-        if not os.path.exists(gosum):
-            shutil.copy("/repo/e2e/go.sum", gosum)
+        shutil.copy(REPO + "/e2e/go.sum", gosum)
         env = dict(os.environ, **GOENV)
         t0 = time.time()
-        p = subprocess.run(["go", "build", "-tags", "verif", "-o", HARNESS, "./cmd/harness"],
+        p = subprocess.run(["go", "build", "-tags", "verif", "-o", harness_bin(module), "./cmd/" + module],
                            cwd=hdir, env=env, capture_output=True, text=True)
         if p.returncode != 0:
             raise Inconclusive("harness build failed:\n" + p.stdout + p.stderr)
-        log(f"[build] harness built in {time.time()-t0:.1f}s")
+        log(f"[build] harness-{module} built in {time.time()-t0:.1f}s")
 
 
 def scratch(prefix):
@@ -205,7 +219,7 @@ def printed_tuples(out, tag):
 
 # ---------------------------------------------------------------------------
 def run_harness(module, mode, out, **kw):
-    cmd = [HARNESS, module, mode, "-out", out]
+    cmd = [harness_bin(kw.get("binary", module)), mode, "-out", out]
     for k in ("in", "seed", "n", "len", "cfg"):
         v = kw.get(k if k != "in" else "inp")
         if v is not None and v != "":
